@@ -175,6 +175,16 @@ fn probes_for(d: &Decl, decls: &[Decl], versions: &[MVer]) -> Vec<Probe> {
             upgrade,
         });
     }
+    // a wildcard route also answers its parent path (empty remainder), at the versions of
+    // its range and at no others
+    if d.has_wildcard() {
+        let more: Vec<Probe> = out
+            .iter()
+            .filter(|p| p.what == "in-range" || p.what == "out-of-range")
+            .map(|p| Probe { what: if p.what == "in-range" { "empty-wildcard-in-range" } else { "empty-wildcard-out-of-range" }, ..p.clone() })
+            .collect();
+        out.extend(more);
+    }
     // body limit: exactly at / one byte over the declared (or default) limit
     if let (Some(v), true) =
         (in_versions.first(), matches!(d.body, BodyKind::TypedJson | BodyKind::TypedForm | BodyKind::Untyped))
@@ -229,7 +239,17 @@ fn probes_for(d: &Decl, decls: &[Decl], versions: &[MVer]) -> Vec<Probe> {
 }
 
 fn send(addr: std::net::SocketAddr, d: &Decl, p: &Probe, uid: u64) -> Result<Resp, String> {
-    let mut r = Req::new(&d.method, &concrete_path(d))
+    let path = if p.what.starts_with("empty-wildcard") {
+        // the wildcard's empty match: the request names exactly the parent path
+        let mut parent = d.clone();
+        if let Some(i) = parent.path.rfind("/{") {
+            parent.path.truncate(i);
+        }
+        concrete_path(&parent)
+    } else {
+        concrete_path(d)
+    };
+    let mut r = Req::new(&d.method, &path)
         .header("x-api-version", &p.version)
         .uid(uid)
         .header("connection", if p.upgrade { "Upgrade" } else { "close" });
